@@ -139,6 +139,43 @@ func genC15(out *Out, r *Rng, tier string, n int, shard int) {
 			continue
 		}
 		rootS := runS.Mz.Root().BigInt().String()
+		// the same bytes again, after the context has been re-published without one of the terms the document uses (or is
+		// served so by another loader): the property is undefined now, and safe mode must say so
+		if len(root.Fields) > 0 && root.Type != nil {
+			pu := plainPresentation(r)
+			pu.ctxMode = 1
+			byURL := g.Render(root, pu)
+			var cdoc map[string]any
+			if run1 := runMerklize(byURL, hs, loader, true); run1.Err == nil && json.Unmarshal(g.ContextDoc(), &cdoc) == nil {
+				gone := root.Fields[r.Intn(len(root.Fields))].Term.Name
+				removed := false
+				if top, ok := cdoc["@context"].(map[string]any); ok {
+					if td, ok := top[root.Type.Name].(map[string]any); ok {
+						if sc, ok := td["@context"].(map[string]any); ok {
+							if _, ok := sc[gone]; ok {
+								delete(sc, gone)
+								removed = true
+							}
+						}
+					}
+				}
+				if removed {
+					cb, _ := json.Marshal(cdoc)
+					loader2 := &mapLoader{docs: map[string][]byte{g.sch.URL: cb}}
+					var why []string
+					run2 := runMerklize(byURL, hs, loader2, true)
+					c := Case{Op: "none", In: J{"doc": string(byURL), "removedTerm": gone}, Tags: []string{"context-republished", "safe:true"}, NT: true}
+					if run2.Err != nil {
+						c.Impl = errJ(run2.Err)
+					} else {
+						c.Impl = okJ(run2.Mz.Root().BigInt().String())
+						why = append(why, fmt.Sprintf("safe mode accepted a document whose property %q is no longer defined by its context (the same bytes were merklized before, under the earlier context)", gone))
+					}
+					c.Prop = propOf(why)
+					out.Emit(c)
+				}
+			}
+		}
 		// the same document written without any context (expanded form), undefined properties added there
 		{
 			for _, forceDeep := range []bool{false, true} {
